@@ -647,6 +647,17 @@ fn main() {
                     })
                 });
             c.label_if(root_is_matched, "root-matched-by-global-pattern");
+            // A line that is blank except for TABs (optionally negated) is a pattern in git but dropped by gitoxide (known
+            // finding); it can decide paths directly or by overriding earlier lines, so otherwise unexplained
+            // disagreements in such a world are attributed to it.
+            let world_has_blank_only_pattern = spec.ignore_files.iter().any(|(_, content)| {
+                content.lines().any(|l| {
+                    let l = l.trim_end_with(|c| c == ' ');
+                    let l = l.strip_prefix(b"!").unwrap_or(l);
+                    !l.is_empty() && l.iter().all(u8::is_ascii_whitespace)
+                })
+            });
+            c.label_if(world_has_blank_only_pattern, "blank-only-pattern-line");
             let mut sources = std::collections::BTreeSet::new();
             let mut any_negative = false;
             let mut n_ignored = 0usize;
@@ -786,13 +797,6 @@ fn main() {
                 let git_follows_topmost_dir = topmost_excluded_dir.map_or(false, |d| d.by == g.by);
                 let sig: &'static str = if root_is_matched {
                     "worktree-root-matched-by-global-pattern"
-                } else if {
-                    let p = g.raw.strip_prefix(b"!").unwrap_or(&g.raw);
-                    !p.is_empty() && p.iter().all(u8::is_ascii_whitespace)
-                } {
-                    // a pattern made of blanks only (a TAB: trailing TABs are not trimmed) is dropped by gix_glob::parse;
-                    // git matches a file of that name
-                    "whitespace-only-pattern-dropped"
                 } else if git_follows_topmost_dir && ours.ignored() {
                     // gitoxide answers with the match of a deeper directory: same verdict, other pattern
                     "excluded-dir-deeper-match-reported"
@@ -805,6 +809,10 @@ fn main() {
                 {
                     // nothing matches the path; gitoxide reports the negated pattern that matched a leading directory
                     "negated-dir-pattern-reported-for-children"
+                } else if world_has_blank_only_pattern {
+                    // a pattern made of blanks only (a TAB: trailing TABs are not trimmed) is dropped by gix_glob::parse;
+                    // git matches a file of that name
+                    "whitespace-only-pattern-dropped"
                 } else {
                     ""
                 };
